@@ -54,6 +54,18 @@ SEEDS = {
            "flag_fuse_velocity=False with running values on, and a note whose velocity bin differs from its predecessor's while equal to the predecessor's duration, or unchanged velocity (extra token) -- only the first loses information"),
  "C04-b": ("C04", "Sequence.overwrite_absolute_messages / overwrite_relative_messages build the view with `AbsoluteSequence(messages=messages)` / `RelativeSequence(messages=messages)`; the time-sorted insertion of add_message is gone",
            "overwrite_absolute_messages called with a valid list that is not in chronological order (e.g. grouped note by note), then the relative view read"),
+ "C14-b": ("C14", "RelativeSequence.transpose: the octave-wrap flag is computed per note as `had_to_shift = msg.note != target` (overwritten for every note message) instead of being set inside the wrap loops",
+           "a note near the range bound that gets wrapped, followed by a later note message that is not wrapped: transpose returns False, Sequence.transpose skips its clean-up"),
+ "C12-b": ("C12", "MidiFile.convert: the default 4/4 is added only when the file holds no time signature at all (`len(time_signature_timings) == 0`) instead of when none sits at tick 0",
+           "saved sequences whose first time signature comes after tick 0 (pickup / leading rest before the metre is stated)"),
+ "C07-b": ("C07", "normalise_relative: when a new time signature is accepted the remembered denominator is set from the numerator (`current_ts_denominator = msg.numerator`)",
+           "the same non-square time signature (3/4, 6/8, 2/4) stated twice: the repetition survives normalising"),
+ "C06-b": ("C06", "quantise_note_lengths: the corrections are computed once into a dict keyed by note value and both filter loops iterate the dict, so a value listed twice is removed only once from the copy of the allowed list",
+           "an allowed-values list with a repeated entry (triplet and quintuplet values colliding after int()) and a short note for which that value is inadmissible but closest"),
+ "C13-b": ("C13", "MidiFile.convert: the KEY_SIGNATURE branch adds the event to the current track's sequence instead of the meta sequence",
+           "a key signature inside a grouped track whose sequence is not the meta target (type-1 files repeating the key in every part)"),
+ "C10-b": ("C10", "Bar.__init__: the leading time signature is inserted only when the sequence carries none; an existing matching signature is left where it is",
+           "a sequence with exactly one matching time-signature event that is not its first message (at tick 24, or after a note at tick 0)"),
  "C17-a": ("C17", "equals: the tick comparison moved into the NOTE_ON branch; time and key signatures are compared by value only",
            "two sequences identical except for the tick of one signature, with no compared event of the channel between the old and the new tick"),
 }
